@@ -165,7 +165,26 @@ def d_late_binding():
     return Chart(Scxml(a, b), binding="late", vars_=["y"], tags=["late"])
 
 
-ALL = [d_basic, d_targetless_nested, d_history_active_parent, d_history_shallow, d_history_deep,
+def d_error_in_if():
+    # a failing element nested in <if>: the enclosing block is aborted, the next block runs,
+    # and the monitor must still see afterExecutingContent for the <if> (C13)
+    a = State(name="a", onentry=[[log("a1"), if_((cmp_("==", var("x"), lit(0)), [log("in1"), fault("expr"), log("never1")]),
+                                                (TRUE, [log("never2")])), log("never3")],
+                                [log("a2")]],
+              trans=[T("error.execution", ["b"], content=[if_((TRUE, [fault("location"), log("never4")])), log("never5")])])
+    b = State(name="b", onexit=[[fault("sendtype"), log("never6")], [log("b2")]], trans=[T("e", ["a"])])
+    return Chart(Scxml(a, b, data=[("x", lit(0))]), vars_=["x"], tags=["error", "if"])
+
+
+def d_error_cond():
+    # a condition that cannot be evaluated: error.execution, counts as false
+    a = State(name="a", trans=[T("e", ["b"], cond=berr()), T("e", ["c"]), T("error.execution", ["c"])])
+    b = State(name="b")
+    c = State(name="c")
+    return Chart(Scxml(a, b, c, data=[("x", lit(0))]), vars_=["x"], tags=["error", "cond"])
+
+
+ALL = [d_error_in_if, d_error_cond, d_basic, d_targetless_nested, d_history_active_parent, d_history_shallow, d_history_deep,
        d_parallel_three_final, d_stale_conflict_cache, d_parallel_region_exit, d_internal,
        d_raise_order, d_data, d_error_block, d_initial_el, d_nested_final_depth, d_toplevel_final,
        d_parallel_preempt, d_multi_target, d_late_binding]
